@@ -27,7 +27,7 @@ echo "demo without change rc=$RC0 ; with change rc=$RC1"
 # suite with the change only (remove demo)
 git checkout -- . ; git clean -fdq -- tests src 2>/dev/null
 git apply $SD/patch$K.diff
-cargo nextest run --workspace --no-fail-fast --offline --retries 12 --test-threads 4 > $WT/suite.txt 2>&1; RCS=$?
+cargo nextest run --workspace --no-fail-fast --offline --retries 12 --test-threads 6 > $WT/suite.txt 2>&1; RCS=$?
 SUM=$(grep -E "Summary|tests run" $WT/suite.txt | tail -1)
 FAILED=$(sed -n '/Summary \[/,$p' $WT/suite.txt | grep -E "^\s+(FAIL|TIMEOUT|SIGABRT|SIGSEGV|ABORT)" | sed -E 's/.*\] +//' | awk '{print $NF}' | sort -u | tr '\n' ' ')
 [ $RCS -ne 0 ] && [ -z "$FAILED" ] && FAILED="unparsed-failure"
